@@ -143,6 +143,19 @@ def check(out: Outcome, p: dict, xs: list, runners: list, enum: bool = False) ->
         elif d.drift:
             out.violation(f"BOCD: drift before min_num_instances (step {t})", rep)
             break
+    # the whole run-length table: row t keeps the posterior after t updates (t+1 entries summing to one), everything beyond it is impossible (probability 0)
+    if r.err is None and rows and all(w is not None for w in rows[: d.num_instances]):
+        T = d.num_instances
+        tab = np.exp(np.asarray(d.log_r, dtype=float))
+        rep = {"class": "BOCD", "params": p, "stream": xs[:T], "step": T, "kind": "table"}
+        if tab.shape != (T + 1, T + 1):
+            out.violation(f"BOCD: log_r has shape {tab.shape} after {T} updates", rep)
+        else:
+            for t in range(T + 1):
+                want = [1.0] if t == 0 else rows[t - 1]
+                if np.any(tab[t, t + 1:] != 0.0) or abs(float(tab[t, : t + 1].sum()) - 1.0) > 1e-6 or max(abs(a - b) for a, b in zip(tab[t, : t + 1], want)) > 1e-6:
+                    out.violation(f"BOCD: row {t} of the run-length table is not the posterior after {t} updates any more (at the end of a run of {T} updates)", rep)
+                    break
     runners.append(r)
     out.case({"class": "BOCD", "params": p, "n": len(xs), "h": hash(tuple(xs)) & 0xFFFFFF}, nontrivial=fired)
 
